@@ -19,24 +19,26 @@ CLAIMED = {
    design="6/C03"),
 }
 CLAIMED["C01"] = dict(
-   text="Theorems over a statement-by-statement transcription of parse_line (12-field state machine), tokens_to_redirections, "
-        "from_tokens, split_tokens_by_pipes, drain_env_tokens and the from_line glue: for every command word and every list of "
-        "single- or double-quoted arguments (any texts, any number, any spacing) the line is cut into exactly those tokens "
-        "(C01_tokenize), planned as ONE foreground command whose words are the written texts with no pipe / background / "
-        "redirection / assignment -- C01_plan_full: text in, plan out through the REAL expansion passes of Model/Expand.v, for every world; "
-        "C01_plan_quoted, C01_post_passes) and never split by the list splitter (C01_split); "
-        "induction over arguments and characters, closed under the global context. PARTIAL: the backslash-escaped style is not "
-        "proved through the tokenizer; there the full statement is refuted (C01_esc_refuted; recorded classes esc-expanded, "
-        "esc-amp-last, esc-trailing-blank) and the rest is carried by the correspondence check: exhaustive short strings through "
-        "the real parse_line / redirection parser vs the extracted model, the real from_line on the property's whole domain "
-        "(3 styles x all texts up to length 2 (3) x 6 positions + random) with the property oracle on the implementation's plan, "
-        "and argv seen by a helper through cicada -c.",
+   text="Theorems over a statement-by-statement transcription of parse_line (12-field state machine), the expansion passes "
+        "(Model/Expand.v), tokens_to_redirections, from_tokens, split_tokens_by_pipes, drain_env_tokens and the from_line glue. "
+        "C01_tokenize_mixed: for ANY number of arguments, each single-quoted, double-quoted or backslash-escaped, any spacing, "
+        "parse_line returns one token per argument holding exactly the written text. C01_plan_mixed_partial: text in, plan out "
+        "through the REAL expansion passes and the planner, for every world (variables, aliases, glob and command oracles): "
+        "outside the decidable Known_C01 -- exactly the two recorded classes (an escaped argument whose untagged token still "
+        "triggers an expansion pass; an escaped ampersand in last position) -- the line is planned as ONE foreground command whose "
+        "words are the command word and exactly the written texts, no pipe / background / redirection / assignment; the proof "
+        "forced no third class. C01_plan_full is the class-free statement for quoted arguments; C01_split: quoted, escaped and "
+        "backquoted atoms never split a line; C01_esc_refuted gives the witnesses for the two classes. Induction over arguments "
+        "and characters, closed under the global context. Tie to the code: exhaustive short strings through the real parse_line / "
+        "redirection parser vs the extracted model, the real from_line on the property's domain (3 styles x all texts up to length "
+        "2 (3) x 6 positions + random lists of 0..6 arguments) with the property oracle on the implementation's plan, and argv seen "
+        "by a helper through cicada -c.",
    note="Trusted: Coq kernel, extraction, drivers, tools/tables2coq.py (Unicode Nd table), tools/regex2coq.py (regex ASTs of the "
         "expansion gates). External behaviour (variables, aliases, glob, command output) is a World record of oracles the theorems "
         "quantify over. In correspondence layer L1c the implementation's own expansion output feeds the model planner (the expansion "
         "model is compared separately by C10-C13). execve argument construction only exercised by L2.",
    technique="Coq proof (state-machine invariants by induction) + extraction-based differential correspondence",
-   design="6/C01")
+   design="6/C01, 12.1b")
 
 NOT_APPLICABLE = {}
 # checks built but temporarily not registered (model being brought in line with a repaired /repo)
